@@ -12,8 +12,9 @@ import WtfModel.Gen.History
   addition lets the environment put ARBITRARY content into the file (`Op.setFile`), over ANY codec.
   `P` is regenerated from the source on every run (`Gen/History.lean`).
 
-  Assumed, not proved (`Codec.Laws`): encoding/json's Marshal/Unmarshal and time.Time's RFC 3339 text
-  round trip, for strings that are valid UTF-8 (`valid`).  Only the save/load theorems use it.
+  The save/load theorems here are over an abstract codec satisfying `Codec.LawsOn` (the parser reads back
+  what `Save` writes; strings in `valid`, instants in `okT` survive).  `Props/C16b.lean` proves those
+  laws for the executable codec the driver runs against encoding/json, so nothing about the codec is assumed there.
 -/
 namespace Wtf.C16
 open Wtf.History
